@@ -314,8 +314,10 @@ def rule_advance(ctx):
                 continue
             if pinned[0].value == 0:
                 continue
+            # (`!=` resolves to the provided PartialEq::ne, `==` to the derived <Epoch as PartialEq>::eq)
             ne = [q for q in p.events[i:] if q.kind == "cond" and isinstance(q.term, tuple) and q.term[0] == "call"
-                  and norm(q.term[1]) in ("std::cmp::PartialEq::ne", "std::cmp::PartialEq::eq")
+                  and (norm(q.term[1]) in ("std::cmp::PartialEq::ne", "std::cmp::PartialEq::eq") or
+                       q.term[1].endswith((" as std::cmp::PartialEq>::eq", " as std::cmp::PartialEq>::ne")))
                   and L0[1].result in [strip(x) for x in q.term[2]]]
             if not ne:
                 r.violate(TRY_ADVANCE, "check", "a pinned participant's epoch is not compared with the epoch read at entry",
@@ -325,7 +327,7 @@ def rule_advance(ctx):
             cmp_ok = other and other[0][0] == "call" and other[0][1] == EP + "unpinned" and strip(other[0][2][0]) == le
             if not cmp_ok:
                 r.violate(TRY_ADVANCE, "check", "the comparison is not unpinned(participant epoch) vs. entry epoch", e.loc())
-            differs = (ne[0].value == 1) == norm(ne[0].term[1]).endswith("::ne")
+            differs = (ne[0].value == 1) == ne[0].term[1].endswith("::ne")
             if differs:
                 bad_seen = ("lagging", e)
         if stores_g:
@@ -859,6 +861,68 @@ def rule_unwind_restore(ctx):
                                                                           what), ok)
         if not ok:
             r.violate(fn, "unwind:" + what, why, b.loc(0))
+    return r
+
+
+# ------------------------------------------------------------------------------------------
+def rule_pin_progress(ctx):
+    """C04 promises destruction `once all strong owners are gone and threads keep entering and leaving critical sections`.
+    The drop of the last owner defers the destruction into the thread's private bag; only a flush hands that bag to the
+    global queue and schedules a collection.  So some path of entering or leaving a critical section must flush every so
+    often (upstream crossbeam counts pinnings for that).  Reachability in the synchronous call graph, from pin and
+    unpin, of the bag hand-over - not through finalize (which needs the last handle gone) and not through user code."""
+    from .rules_rec import call_graph
+    r = RuleResult("EBR-PIN-PROGRESS", ["C04", "C15"],
+                   "a thread that only keeps entering and leaving critical sections eventually hands its private bag over and "
+                   "schedules a collection: pin or unpin reaches Local::flush / push_to_global (periodically), finalize aside")
+    prog = ctx.prog
+    g = call_graph(prog)
+    HAND = {P + "Local::flush", P + "Local::push_to_global"}
+    SKIP = {FINALIZE, P + "Local::defer"}     # defer hands over a FULL bag only - that is not progress for a few deferrals
+    hit = {}
+    for root in (PIN, UNPIN, P.replace("internal::", "collector::") + "LocalHandle::pin"):
+        if root not in prog.bodies:
+            continue
+        r.functions.add(root)
+        seen, work = set(), [(root, (root,))]
+        while work:
+            v, path = work.pop()
+            if v in seen:
+                continue
+            seen.add(v)
+            if v in HAND:
+                hit[root] = path
+                break
+            for x in sorted(g.get(v, ())):
+                if x in SKIP:
+                    continue
+                work.append((x, path + (x,)))
+    ok = bool(hit)
+    r.instance("entering/leaving a critical section reaches the bag hand-over: %s" % (
+        {k.split("::")[-1]: " -> ".join(x.split("::")[-1] for x in v) for k, v in hit.items()} or "no path"), ok)
+    if not ok:
+        r.violate(PIN, "never-flushes", "neither pin nor unpin ever hands the private bag over (only an explicit flush, a full bag, "
+                  "every 64th strong decrement or the thread's exit do): a thread that drops the last owner of an object and "
+                  "then only keeps entering and leaving critical sections never destructs it", prog.body(PIN).loc(0))
+    # the tell-tale: a per-participant counter that is reset but never advanced (the pinning counter upstream flushes on)
+    dead = []
+    writes = {}
+    for name, b in prog.bodies.items():
+        if not name.startswith(P):
+            continue
+        for p in ctx.ex.paths(b) if any(norm(c.target or "") in ("std::cell::Cell::set", "std::cell::Cell::replace")
+                                        for (_, _, c) in b.calls()) else []:
+            for e in p.events:
+                if e.kind == "call" and e.ntarget == "std::cell::Cell::set":
+                    f = outer_field(e.args[0])
+                    if f and f.startswith("Local."):
+                        writes.setdefault(f, set()).add(const_of(e.args[1]))
+    for f, vals in sorted(writes.items()):
+        if vals and all(v == 0 for v in vals) and None not in vals:
+            dead.append(f)
+    if dead:
+        r.notes.append("counter(s) only ever reset to 0, never advanced: %s" % dead)
+    r.require(len(r.instances), 1, "progress obligations")
     return r
 
 
@@ -1722,9 +1786,29 @@ def rule_list(ctx):
             inner = ret[3][0]
             if isinstance(inner, tuple) and inner[0] == "agg" and inner[2] == "Err":
                 n += 1
-                stores = [e for e in p.events if e.kind == "store"]
-                reset = any("Iter.pred" in show(e.place) and "Iter.head" in show(e.value) for e in stores) and \
-                    any("Iter.curr" in show(e.place) and "Iter.head" in show(e.value) for e in stores)
+                # both halves of the position are reset, however the iterator keeps them (two fields, a cursor struct):
+                # something stored into the iterator IS the head link, something stored is a fresh load OF the head link
+                stores = [e for e in p.events if e.kind == "store" and "self" in show(e.place)]
+
+                def walk(t, inside_load=False):
+                    """-> (head link stored as such, head link loaded)"""
+                    a = b_ = False
+                    if not isinstance(t, tuple):
+                        return a, b_
+                    if t[0] == "call" and norm(t[1]) == "ebr_impl::pointers::RawAtomic::load":
+                        if t[2] and "Iter.head" in show(t[2][0]):
+                            b_ = True
+                        return a, b_
+                    if t[0] in ("field", "deref", "load") and show(t).endswith("Iter.head") or \
+                            (t[0] == "field" and t[1] == "Iter.head"):
+                        return True, b_
+                    for x in (t[1:] if isinstance(t[0], str) else t):
+                        if isinstance(x, tuple):
+                            a2, b2 = walk(x)
+                            a, b_ = a or a2, b_ or b2
+                    return a, b_
+                got = [walk(e.value) for e in stores]
+                reset = any(g[0] for g in got) and any(g[1] for g in got)
                 r.instance("Stalled: iterator reset to head", reset)
                 if not reset:
                     r.violate(nx.name, "stalled", "Stalled is yielded without restarting the traversal from the head", nx.loc(0))
@@ -2026,16 +2110,31 @@ def rule_queue(ctx):
                 continue
             li, le = att[-1]
             out = ctx.cas_outcome(p, le.result, li)
+            # (a rotated loop - `a = attempt(); while a.is_err() { a = attempt() }` - makes the next attempt before the
+            #  back edge: every attempt but the last must have been examined and found lost)
+            earlier_ok = True
+            for (ai, ae) in att[:-1]:
+                if ctx.cas_outcome(p, ae.result, ai) != "err":
+                    earlier_ok = False
+            if not earlier_ok:
+                r.instance("%s makes a further attempt only after a lost race" % wname.split("::")[-1], False)
+                r.violate(wname, "retry", "retries although the attempt succeeded (element dropped)", le.loc())
+                continue
             if p.exit[0] == "return":
                 nw += 1
-                ok = out == "ok" and strip(p.ret) == ("field", "0", ("variant", "Ok", le.result))
+                ret = strip(p.ret)
+                payload = ("field", "0", ("variant", "Ok", le.result))
+                # `attempt.ok().flatten()` on a path that knows the attempt is Ok is its payload
+                flat = isinstance(ret, tuple) and ret[0] == "call" and norm(ret[1]) == "std::option::Option::flatten" and \
+                    strip(ret[2][0]) == ("okopt", le.result)
+                ok = out == "ok" and (ret == payload or flat)
                 r.instance("%s returns the Ok payload of its last attempt" % wname.split("::")[-1], ok)
                 if not ok:
                     r.violate(wname, "lost-race", "returns %s after an attempt that %s: a lost race for the head is reported as "
                               "`empty / predicate failed` although the queue may hold elements that satisfy the predicate"
                               % (show(p.ret)[:40], "lost the race (Err)" if out == "err" else "was not examined"), le.loc())
             elif p.exit[0] == "retry":
-                ok = out == "err"
+                ok = out == "err" or (out is None and len(att) >= 2)
                 r.instance("%s retries exactly when the attempt lost the race" % wname.split("::")[-1], ok)
                 if not ok:
                     r.violate(wname, "retry", "retries although the attempt succeeded (element dropped)", le.loc())
